@@ -161,6 +161,42 @@ class Dataset(AbstractDataset, dict, OpMixin, GetSetDelAttrMixin):
         else:
             return super(Dataset, self).__getitem__(key)
 
+    # dict's own mutators do not go through __setitem__ / __delitem__ :
+    # route them there, so that variables always share the dataset's axes
+    def update(self, *args, **kwargs):
+        """ add or replace several variables, like dict.update """
+        for key, val in dict(*args, **kwargs).items():
+            self[key] = val
+
+    def __ior__(self, other):
+        self.update(other)
+        return self
+
+    def setdefault(self, key, default=None):
+        if key not in self.keys():
+            self[key] = default
+        return self[key]
+
+    def pop(self, key, *default):
+        """ remove a variable and return it, like dict.pop """
+        if key not in self.keys():
+            if default:
+                return default[0]
+            raise KeyError(key)
+        val = self[key]
+        del self[key]
+        return val
+
+    def popitem(self):
+        if len(self) == 0:
+            raise KeyError("popitem(): dataset is empty")
+        key = list(self.keys())[-1]
+        return key, self.pop(key)
+
+    def clear(self):
+        for key in list(self.keys()):
+            del self[key]
+
     def _maybe_delete_axes(self, axes):
         """ delete axes if not found in the dataset """
         # update axes
